@@ -60,7 +60,9 @@ func (l *vfLRU) put(k string, v uint64, neg bool, exp time.Time) {
 	l.ents = append([]*vfLRUEnt{{k, v, neg, exp}}, l.ents...)
 }
 
-var vfCacheKeys = []string{"/", "/a", "/ab", "/a/b", "/a/c", "/a/b/c", "/b", "/b/a", "/abc", "/a/b/c/d"}
+var vfCacheKeys = []string{"/", "/a", "/ab", "/a/b", "/a/c", "/a/b/c", "/b", "/b/a", "/abc", "/a/b/c/d",
+	// names built only from characters of their directory's path, and the same one level deeper
+	"/a/a", "/a/a/a", "/a/a/b", "/ab/a", "/a/ab", "/b/b", "/ab/ba"}
 
 // vfKS is what the expiry-regime oracle knows about one key.
 type vfKS struct {
